@@ -14,14 +14,18 @@ prop("C05", "exploration",
      "file consisting solely of canonical entries that lists the key, and for a stored grant with authgrants enabled; at the end "
      "the server's grant map is drained and compared with the model. Non-trivial = history containing a login where the file is "
      "missing / unreadable / empty / malformed / lists only other keys / belongs to no user, or a login after the pair's grant was "
-     "consumed; distinct by hash of the whole history.",
+     "consumed; distinct by hash of the whole history. Units e2e and concurrent are shared with C07: the real hopSession login over a "
+     "simulated transport (login confirmed only with a file entry or a stored grant), and real goroutines racing "
+     "AuthorizeKeyAuthGrant for one stored grant (an unconsumed grant admits one login, not two; also under the race detector).",
      ["'login' is the decision sequence of checkAuthorization as read in hopserver/session.go, re-stated in the harness "
       "(verifAuthzLogin); the real hopSession over a transport is layer 2",
       "well-formed entry = optional surrounding white space + 'hop-dh-v1-' + padded standard base64 of exactly 32 bytes, one per "
       "line (DHPublicKey.String / ParseDHPublicKey / ParseAuthorizedKeys doc comments)",
       "home directories are /home/<user>; unreadable = directory in place of the file (fstest.MapFS has no permission bits)"],
      [dict(name="model", pkg="hopserver", run="^TestVerifC05Login$", shards=dict(quick=8, thorough=16), thorough_scale=100),
-      dict(name="e2e", pkg="hopserver", run="^TestVerifC07EndToEnd$", shards=dict(quick=16, thorough=16), thorough_scale=20, timeout=dict(quick=900, thorough=3600))],
+      dict(name="e2e", pkg="hopserver", run="^TestVerifC07EndToEnd$", shards=dict(quick=16, thorough=16), thorough_scale=20, timeout=dict(quick=900, thorough=3600)),
+      dict(name="concurrent", pkg="hopserver", run="^TestVerifC07ConcurrentAdmission$", shards=dict(quick=8, thorough=16), thorough_scale=20),
+      dict(name="concurrent-race", pkg="hopserver", race=True, run="^TestVerifC07ConcurrentAdmission$", shards=dict(quick=4, thorough=8), thorough_scale=10)],
      text="Model-based search: generated histories of authorized_keys edits, grant additions, authgrant switches and logins run on a "
           "real HopServer (in-memory file system, stubbed passwd lookup) and on a reference model written from the statement; every "
           "login decision is compared with 'listed or live grant'. Absence is not shown; layer 1 does not run the transport or the "
